@@ -267,7 +267,7 @@ func codecCase(rep *Report, s *glue.Subject, d MD, idx int) {
 
 	// --- materialise the subject three ways; rotate which one is the main subject
 	var S proto.Message
-	route := idx % 3
+	route := idx % 4
 	exp, expIR := want, v
 	var pmsg string
 	var pan bool
@@ -280,8 +280,11 @@ func codecCase(rep *Report, s *glue.Subject, d MD, idx int) {
 	case 2:
 		exp, expIR = wantQ, vq
 		pan, pmsg = safely(func() { S = newOf(s.Zero); Fill(fastView, S, vq) })
+	case 3:
+		// struct-level state: every absent list/map/bytes field is an empty, allocated container
+		pan, pmsg = safely(func() { S = BuildStruct(s.Zero, v); nilToEmpty(reflect.ValueOf(S), 0) })
 	}
-	routeName := []string{"struct", "slow-set", "fast-set"}[route]
+	routeName := []string{"struct", "slow-set", "fast-set", "struct+empty-containers"}[route]
 	rep.Count("C01", "route/"+routeName, 1)
 	if pan {
 		if route == 2 {
@@ -486,6 +489,9 @@ func codecCase(rep *Report, s *glue.Subject, d MD, idx int) {
 			switch hi % 3 {
 			case 0:
 				H = BuildStruct(s.Zero, sv)
+				if hi >= 3 || idx%2 == 0 {
+					nilToEmpty(reflect.ValueOf(H), 0) // nil-versus-empty containers are the same value
+				}
 			case 1:
 				H = BuildStruct(s.Zero, sv)
 				churnMaps(H, r)
